@@ -43,6 +43,13 @@ def main():
         prop, seed, tier, n = argv[1], int(argv[2]), argv[3], int(argv[4])
         print(json.dumps(kernel.digest_runs(prop, seed, tier, list(range(n)))))
         return 0
+    if argv and argv[0] == '_c02child':
+        record = json.loads(sys.stdin.read())
+        kernel.load('C02')
+        from gvsim.props import c02
+
+        print(json.dumps(c02.histories_for_child(record)))
+        return 0
     if argv and argv[0] == 'selftest-determinism':
         props = argv[1:] or [p for p in ALL if os.path.exists(os.path.join(HERE, 'gvsim', 'props', p.lower() + '.py'))]
         return kernel.selftest_determinism(props)
